@@ -50,3 +50,45 @@ package federation
 //@   calls append#*: set n = n + 1
 //@   loop 1: invariant n == $i && len(tokens) == n
 //@   ensures result1 == nil ==> len(result0) == n
+
+// ------------------------------------------------------------------- C18
+//@ iface backend.CollectionGet
+//@   modifies nothing
+//@ func httpErrorf trusted
+//@   modifies nothing
+//@   ensures result != nil
+//@ pure arvados.PortableDataHash
+
+// Per-backend attempt of a fetch by portable data hash: nil is returned (and
+// the collection offered to the caller) only if the manifest actually received
+// hashes - by a computation on the received text, not by the record's own
+// portable_data_hash field - to the requested hash (or the request is that hash
+// plus hints); the relayed manifest is the received one, with signatures
+// rewritten for the remote it came from, nothing else.
+//@ func Conn.CollectionGet$1 property C18
+//@   ghost rerr error = nil
+//@   ghost got string = ""
+//@   ghost hashed bool = false
+//@   ghost pdh string = ""
+//@   ghost rw string = ""
+//@   calls backend.CollectionGet#1: set rerr = $r1
+//@   calls backend.CollectionGet#1: set got = $r0.ManifestText
+//@   calls arvados.PortableDataHash#1: requires $0 == got && rerr == nil
+//@   calls arvados.PortableDataHash#1: set hashed = true
+//@   calls arvados.PortableDataHash#1: set pdh = $r
+//@   calls rewriteManifest#1: requires $0 == got && $1 == remoteID && remoteID != ""
+//@   calls rewriteManifest#1: set rw = $r
+//@   ensures result == nil ==> rerr == nil && hashed && (pdh == options.UUID || strings.HasPrefix(options.UUID, pdh + "+"))
+//@   ensures result == nil ==> c.ManifestText == ite(remoteID != "", rw, got)
+
+//@ func rewriteManifest$1 property C18
+//@   ensures result == strings.Replace(tok, "+A", "+R" + remoteID + "-", 0 - 1)
+
+// tryLocalThenRemotes: the local backend is always asked first; remotes are
+// asked only if the local answer was a 404 and the request was not itself
+// forwarded from another cluster.
+//@ func Conn.tryLocalThenRemotes property C18
+//@   ghost lerr error = nil
+//@   calls fn#1: requires $1 == "" && $2 == conn.local
+//@   calls fn#1: set lerr = $r
+//@   calls Conn.tryLocalThenRemotes$1#1: requires forwardedFor == "" && lerr != nil && errStatus(lerr) == 404
